@@ -6,10 +6,10 @@
    stream `out` (sequences of event records [id, clk, k, sz]; k = "n" normal,
    "b" the OU[ marker, "e" the OU] marker, "j" jumbo; in[i].id = i).  They
    say what a correct sorter must deliver and under which preconditions it
-   MUST succeed; nothing here mentions rings or pointers.  All operators are
-   written with quantifiers / SelectSeq (no recursion over the stream) so
-   that OvniSortTrace.tla can evaluate them on recorded streams of
-   thousands of events.
+   MUST succeed; nothing here mentions rings or pointers.  The operators are
+   written with quantifiers / SelectSeq (no recursion over the stream, except
+   Size, which OvniSortTrace.tla replaces by the observed file sizes) so that
+   they can be evaluated on recorded streams of thousands of events.
 
    IMPLEMENTATION LAYER.  src/emu/ovnisort.c as written: the S/U/X region
    automaton of stream_winsort, the ring (head/tail/size, wrap-around, one
@@ -131,10 +131,20 @@ Verdict(in, n, st, out) ==
    /\ (oru /\ st = "ok") => SortedStablePermutation(in, out)
 Conforms(in, n, st, out) == Survives(in, out) /\ Verdict(in, n, st, out)
 
-\* T(stream, n) = [st, out] is the tool as a function; sorting again changes nothing
+(* T(stream, n) = [st, out] is the tool as a function.  Sorting again changes
+   nothing on disk.  The second run need not SUCCEED: late events that were
+   moved in front of the closing marker of an EARLIER region make that region
+   deeper, and ovnisort wants to look back over a whole region even if it is
+   already in place (e.g. -n 5 on  OU[@0 J@0 e@0 OU]@2 OU[@2 e@1 OU]@2 : the
+   first run sorts, the second run exits 1 on the sorted stream).  It succeeds
+   whenever the look back still suffices for the sorted stream.             *)
 Idempotent(T(_, _), in, n) ==
    (OnlyRegionsUnsorted(in) /\ T(in, n).st = "ok") =>
-       LET o == T(in, n).out IN T(o, n).st = "ok" /\ T(o, n).out = o
+       LET o == T(in, n).out
+           again == T(o, n)
+       IN /\ again.out = o
+          /\ again.st \in {"ok", "fail"}
+          /\ WithinLookBack(o, n) => again.st = "ok"
 
 \* `ovnisort -c` afterwards and the emulator's monotonicity check
 CheckModePasses(out) == Sorted(out)
@@ -284,7 +294,10 @@ RunAgrees == Run(in, s.n) = s
 \* Idempotent(Tool, in, s.n), with Tool(in, s.n) taken from the state (RunAgrees)
 IdempotentInv ==
    (Outcome(s) = "ok" /\ OnlyRegionsUnsorted(in)) =>
-       LET r == Run(s.buf, s.n) IN r.status = "run" /\ r.buf = s.buf
+       LET r == Run(s.buf, s.n)
+       IN /\ r.buf = s.buf
+          /\ r.status \in {"run", "fail"}
+          /\ WithinLookBack(s.buf, s.n) => r.status = "run"
 IdempotentDef == Idempotent(Tool, in, s.n)      \* the definition itself (small configurations)
 
 \* the preconditions are not stronger than needed: with only regions
@@ -337,17 +350,26 @@ ExportSel ==
          \/ e = "mayfail" /\ L <= ExportUnspecLen + 1
          \/ e = "mayfail" /\ L <= ExportUnspecLen + 2 /\ s'.n >= 4
          \/ L <= ExportUnspecLen
-Export ==
-   ExportSel =>
-   PrintT(<<"TR", ToJson([n |-> s'.n,
-                          k |-> [i \in DOMAIN in' |-> in'[i].k],
-                          c |-> [i \in DOMAIN in' |-> in'[i].clk],
-                          exp |-> Expected(in', s'.n),
-                          order |-> Ids(StableSort(in')),
-                          fm |-> FirstMoved(in'),
-                          nreg |-> Cardinality(NonEmptyRegions(in')),
-                          impl |-> Outcome(s'),
-                          isorted |-> Sorted(s'.buf),
-                          iorder |-> Ids(s'.buf),
-                          emu |-> EmuShape(in')])>>)
+\* what the harness needs to replay one stream: the input, what the property
+\* demands (class, the stable order, first event that may move, whether a second
+\* run must succeed) and what the implementation layer predicts
+ExportRec(inp, S) ==
+   [n |-> S.n,
+    k |-> [i \in DOMAIN inp |-> inp[i].k],
+    c |-> [i \in DOMAIN inp |-> inp[i].clk],
+    exp |-> Expected(inp, S.n),
+    order |-> Ids(StableSort(inp)),
+    fm |-> FirstMoved(inp),
+    nreg |-> Cardinality(NonEmptyRegions(inp)),
+    again |-> WithinLookBack(StableSort(inp), S.n),
+    impl |-> Outcome(S),
+    isorted |-> Sorted(S.buf),
+    iorder |-> Ids(S.buf),
+    emu |-> EmuShape(inp)]
+Export == ExportSel => PrintT(<<"TR", ToJson(ExportRec(in', s'))>>)
+
+\* the old, too strong reading of "sorting again changes nothing" (the second
+\* run also succeeds): refuted by TLC from 7 events on, kept as a witness
+SecondRunSucceeds ==
+   (Outcome(s) = "ok" /\ OnlyRegionsUnsorted(in)) => Run(s.buf, s.n).status = "run"
 =============================================================================
